@@ -592,6 +592,73 @@ pub fn corpus<F: FnMut(&'static str, &[u8])>(c: &CorpusCfg, f: &mut F) {
     fam_ext(c, f);
     fam_mutated(c, f);
     fam_random(c, f);
+    fam_semantic(c, f);
+    fam_heavy(c, f);
+}
+
+/// option values with a meaning to layers ABOVE the section-3 framing (path traversal, empty
+/// and oversized segments, out-of-range integers, reserved block sizes ...).  The framing does
+/// not care: every one of these datagrams is well formed and has to come back field by field.
+fn fam_semantic<F: FnMut(&'static str, &[u8])>(c: &CorpusCfg, f: &mut F) {
+    const NUMBERS: &[u16] = &[1, 3, 4, 5, 6, 7, 8, 9, 11, 12, 14, 15, 17, 20, 23, 27, 28, 35, 39, 60, 252, 258, 2049, 2053, 65000];
+    const VALUES: &[&[u8]] = &[
+        b"", b".", b"..", b"...", b"/", b"//", b"../", b"a/b", b"%2e%2e", b"%2E%2E", b"\0", b"\xff", b"\xff\xff", b"\xc0\xaf", b"\xed\xa0\x80", b"\xf4\x90\x80\x80",
+        b"*", b"?", b"#", b"coap://h", b"[::1]", b"a=b&c", b"\x00\x00", b"\x00\x01", b"\x07", b"\x0f", b"\x17", b"\xff\xff\xff\xff", b"\xff\xff\xff\xff\xff", b"\x01\x00\x00\x00\x00\x00\x00\x00\x00",
+        b"\r\n", b" ", b"\x7f", b"0", b"00", b"-1",
+    ];
+    let mut i = 0u64;
+    for (ni, &n) in NUMBERS.iter().enumerate() {
+        for (vi, v) in VALUES.iter().enumerate() {
+            i += 1;
+            if !c.mine(i) || (c.level == 0 && (ni + vi) % 5 != 0) {
+                continue;
+            }
+            // alone; between two ordinary segments of the same number; next to a neighbour number
+            for shape in 0..3 {
+                let mut m = Msg { ver: 1, typ: (i % 4) as u8, token: vec![0xab; (i % 9) as usize], code: [1u8, 2, 0x45, 3][(i % 4) as usize], mid: 0x1234, options: vec![], payload: vec![] };
+                match shape {
+                    0 => m.options.push((n, v.to_vec())),
+                    1 => {
+                        m.options.push((n, b"a".to_vec()));
+                        m.options.push((n, v.to_vec()));
+                        m.options.push((n, b"b".to_vec()));
+                    }
+                    _ => {
+                        m.options.push((n, v.to_vec()));
+                        m.options.push((n + 1, v.to_vec()));
+                        m.payload = v.to_vec();
+                    }
+                }
+                if let Some(b) = refcodec::encode(&m) {
+                    f("semantic-values", &b);
+                }
+            }
+        }
+    }
+}
+
+/// one option number repeated with values that are each legal but together exceed every 16-bit
+/// quantity of the format (65535, 65535+269) - and the same volume spread over different numbers
+fn fam_heavy<F: FnMut(&'static str, &[u8])>(c: &CorpusCfg, f: &mut F) {
+    if c.level == 0 {
+        return;
+    }
+    let plans: &[(usize, usize)] = &[(2, 32902), (2, 32903), (2, 33000), (3, 21935), (300, 255), (5, 65804), (66, 1000), (2, 65535), (260, 268)];
+    for (pi, &(k, vlen)) in plans.iter().enumerate() {
+        if !c.mine(pi as u64) {
+            continue;
+        }
+        for (number, spread) in [(11u16, false), (0, false), (65000, false), (11, true)] {
+            let mut m = Msg { ver: 1, typ: 0, token: vec![1, 2], code: 2, mid: 77, options: vec![], payload: vec![9, 9] };
+            for j in 0..k {
+                let n = if spread { number + (j as u16) } else { number };
+                m.options.push((n, vec![(j as u8) ^ 0x5a; vlen]));
+            }
+            if let Some(b) = refcodec::encode(&m) {
+                f("heavy-repeated-option", &b);
+            }
+        }
+    }
 }
 
 /// every option number 0..=65535 carried by a well-formed datagram: as the only option, and as the
